@@ -303,6 +303,9 @@ pub trait Observer {
     fn run_begin(&mut self, _info: &RunInfo<'_>) {}
     /// Called before instruction `pc` is dispatched at text index `ix`.
     fn insn(&mut self, _pc: usize, _ix: usize, _insn: &Insn, _st: &StateView<'_>) {}
+    /// Called when the VM is about to backtrack (the branch stack is not empty), before the
+    /// backtrack is counted against the limit.
+    fn backtrack(&mut self, _st: &StateView<'_>) {}
     /// Called after every operation on the backtracking state.
     fn op(&mut self, _op: StateOp, _st: &StateView<'_>) {}
     /// Called when the run ends; `saves` is the returned slot vector of a match.
@@ -390,8 +393,9 @@ pub(super) fn at_insn(pc: usize, ix: usize, insn: &Insn, st: &State) {
 }
 
 #[inline]
-pub(crate) fn at_backtrack() {
+pub(super) fn at_backtrack(st: &State) {
     stats(|s| s.backtracks += 1);
+    observe(|o| o.backtrack(&StateView { st }));
     yield_point(site::VM_BACKTRACK);
 }
 
